@@ -358,8 +358,9 @@ func c12Clamp(c *an.Ctx, fn *ssa.Function) {
 	}
 }
 
-// derivesOnlyFromLimit: v is built from loads of the limit field and constants.
-func derivesOnlyFromLimit(v ssa.Value, limit *types.Var, d int) bool {
+// derivesOnlyFromLimit: v is built from limit leaves (loads of the limit field, or - inside a
+// clamping helper - the parameter the limit is passed in) and constants.
+func derivesOnlyFromLimit(v ssa.Value, leaf func(ssa.Value) bool, d int) bool {
 	if d > 8 {
 		return false
 	}
@@ -367,17 +368,17 @@ func derivesOnlyFromLimit(v ssa.Value, limit *types.Var, d int) bool {
 	if _, ok := v.(*ssa.Const); ok {
 		return false // a bare constant is not a limit
 	}
-	if an.LoadsField(v, limit) {
+	if leaf(v) {
 		return true
 	}
 	if b, ok := v.(*ssa.BinOp); ok && (b.Op == token.MUL || b.Op == token.QUO) {
 		_, cx := an.Strip(b.X).(*ssa.Const)
 		_, cy := an.Strip(b.Y).(*ssa.Const)
 		if cy {
-			return derivesOnlyFromLimit(b.X, limit, d+1)
+			return derivesOnlyFromLimit(b.X, leaf, d+1)
 		}
 		if cx {
-			return derivesOnlyFromLimit(b.Y, limit, d+1)
+			return derivesOnlyFromLimit(b.Y, leaf, d+1)
 		}
 	}
 	return false
@@ -402,45 +403,99 @@ func scaledVar(v ssa.Value) ssa.Value {
 
 // clamped: at instruction `at`, value v is bounded by the limit.
 func clamped(at ssa.Instruction, v ssa.Value, limit *types.Var, d int) (bool, string) {
+	return clampedBy(at, v, func(x ssa.Value) bool { return an.LoadsField(x, limit) }, d)
+}
+
+func clampedBy(at ssa.Instruction, v ssa.Value, leaf func(ssa.Value) bool, d int) (bool, string) {
 	if d > 6 {
 		return false, "too deep"
 	}
-	if derivesOnlyFromLimit(v, limit, 0) {
+	if derivesOnlyFromLimit(v, leaf, 0) {
 		return true, "is the limit itself"
 	}
 	x := scaledVar(v)
-	// guarded by NOT(x > L) i.e. x <= L
-	le := func(r an.Rel) bool {
-		if r.Op == token.LEQ && r.X == x && derivesOnlyFromLimit(r.Y, limit, 0) {
-			return true
+	isLim := func(y ssa.Value) bool { return derivesOnlyFromLimit(y, leaf, 0) }
+	// x <= L
+	leX := func(x ssa.Value) func(r an.Rel) bool {
+		return func(r an.Rel) bool {
+			if r.Op == token.LEQ && r.X == x && isLim(r.Y) {
+				return true
+			}
+			if r.Op == token.GEQ && r.Y == x && isLim(r.X) {
+				return true
+			}
+			return false
 		}
-		if r.Op == token.GEQ && r.Y == x && derivesOnlyFromLimit(r.X, limit, 0) {
+	}
+	le := leX(x)
+	if g, _ := an.GuardedBy(at, le); g {
+		return true, "guarded by <= limit"
+	}
+	// every path to `at` crosses x <= L, or L <= 0 (the repository's convention for "no limit":
+	// `if limit > 0 && x > limit { x = limit }`)
+	unlimited := func(r an.Rel) bool {
+		if (r.Op == token.LEQ || r.Op == token.LSS) && isLim(r.X) && (an.IsIntConst(r.Y, 0) || (r.Op == token.LSS && an.IsIntConst(r.Y, 1))) {
 			return true
 		}
 		return false
 	}
-	if g, _ := an.GuardedBy(at, le); g {
-		return true, "guarded by <= limit"
+	if fn := at.Parent(); fn != nil {
+		w := an.Query{Fn: fn, Target: func(in ssa.Instruction) bool { return in == at },
+			BarrierEdge: func(from, to *ssa.BasicBlock) bool {
+				return an.EdgeHolds(from, to, func(r an.Rel) bool { return le(r) || unlimited(r) })
+			}}.Find()
+		if w == nil {
+			return true, "every path crosses <= limit (or limit <= 0: unlimited)"
+		}
 	}
 	if phi, ok := x.(*ssa.Phi); ok {
 		for i, e := range phi.Edges {
 			pred := phi.Block().Preds[i]
 			term := pred.Instrs[len(pred.Instrs)-1]
 			// the edge itself may be the guarding edge
-			if cnd, t, ok := an.EdgeCond(pred, phi.Block()); ok {
-				r := an.Normalize(cnd, t)
-				ex := scaledVar(e)
-				if (r.Op == token.LEQ && r.X == ex && derivesOnlyFromLimit(r.Y, limit, 0)) ||
-					(r.Op == token.GEQ && r.Y == ex && derivesOnlyFromLimit(r.X, limit, 0)) {
-					continue
-				}
+			if an.EdgeHolds(pred, phi.Block(), leX(scaledVar(e))) {
+				continue
 			}
-			ok2, why := clamped(term, e, limit, d+1)
+			ok2, why := clampedBy(term, e, leaf, d+1)
 			if !ok2 {
 				return false, fmt.Sprintf("phi edge %d (%s) not bounded: %s", i, an.Path(e), why)
 			}
 		}
 		return true, "all phi edges bounded"
+	}
+	// a clamping helper: h(..., limit, ...) - every value it returns is bounded by that parameter
+	if call, ok := x.(*ssa.Call); ok {
+		h := call.Call.StaticCallee()
+		if h != nil && h.Blocks != nil && h.Pkg != nil && call.Parent() != nil && call.Parent().Pkg == h.Pkg && h.Signature.Results().Len() == 1 {
+			lim := map[ssa.Value]bool{}
+			for i, a := range call.Call.Args {
+				if i < len(h.Params) && isLim(a) {
+					lim[h.Params[i]] = true
+				}
+			}
+			if len(lim) == 0 {
+				return false, "value " + an.Path(v) + " comes from " + an.FnName(h) + ", which is not given the limit"
+			}
+			n := 0
+			var bad string
+			an.Instrs(h, func(in ssa.Instruction) {
+				ret, isRet := in.(*ssa.Return)
+				if !isRet || bad != "" {
+					return
+				}
+				n++
+				ok2, why := clampedBy(ret, an.RetVal(ret, 0), func(y ssa.Value) bool { return lim[y] }, d+1)
+				if !ok2 {
+					bad = fmt.Sprintf("%s returns a value not bounded by its limit parameter: %s", an.FnName(h), why)
+				}
+			})
+			if bad != "" {
+				return false, bad
+			}
+			if n > 0 {
+				return true, "returned by clamping helper " + an.FnName(h)
+			}
+		}
 	}
 	return false, "value " + an.Path(v) + " is neither the limit nor guarded by a comparison with it"
 }
